@@ -66,7 +66,7 @@ static const int GWEIGHT[NGROUP] = { 20, 12, 15, 9, 9, 9, 10, 6, 5, 5 };
 enum { F_SVALS, F_PERM, F_ZEROLEAD, F_TRI, F_SPD, F_DIAG, NFAM };
 static const char *FNAME[NFAM] = { "svals", "perm", "zerolead", "tri", "spd", "diag" };
 
-static long ncases(int tier) { return tier ? 600000 : 30000; }
+static long ncases(int tier) { return tier ? 600000 : 50000; }
 
 /* ------------------------------------------------------------------ generators */
 static void round_to_double(ldm *A) { size_t i; for (i = 0; i < A->r * A->c; i++) A->a[i] = (ld)(double)A->a[i]; }
